@@ -15,7 +15,9 @@ Inductive crop :=
 | CRSr (now ntp : Z)
 | CRRep (now ext lsr frac total delay jitter : Z).   (* with the implementation's report *)
 
-Definition c06core_case := (Z * list crop)%type.       (* clock rate, ops *)
+(* clock rate, preset of the cumulative loss counter (hook PresetTotalLost; 0 in
+   all but the saturation bucket), ops *)
+Definition c06core_case := (Z * Z * list crop)%type.
 
 Definition crop_op (c : crop) : rop :=
   match c with
@@ -35,12 +37,18 @@ Definition rrep_eqb (x y : rrep) : bool :=
   let '(a1, a2, a3, a4, a5, a6) := x in let '(b1, b2, b3, b4, b5, b6) := y in
   (a1 =? b1) && (a2 =? b2) && (a3 =? b3) && (a4 =? b4) && (a5 =? b5) && (a6 =? b6).
 
-Definition r_run_exec (rate : Z) :=
-  r_run float jitter_kernel jitter_out dlsr_kernel rate (r_init float 0%float).
+(* newReceiverStream followed by PresetTotalLost(total0) *)
+Definition r_start (total0 : Z) : rstate float :=
+  let i := r_init float 0%float in
+  mkR (r_started i) (r_bits i) (r_cycles i) (r_last i) (r_last_report i) (r_last_rtp i)
+      (r_last_time i) (r_jit i) (r_lsr i) (r_lsr_time i) total0.
+
+Definition r_run_exec (rate total0 : Z) :=
+  r_run float jitter_kernel jitter_out dlsr_kernel rate (r_start total0).
 
 Definition c06core_model_ok (c : c06core_case) : bool :=
-  let '(rate, ops) := c in
-  list_eqb rrep_eqb (r_run_exec rate (map crop_op ops)) (crop_outs ops).
+  let '(rate, total0, ops) := c in
+  list_eqb rrep_eqb (r_run_exec rate total0 (map crop_op ops)) (crop_outs ops).
 
 Definition c06core_mismatches (cases : list c06core_case) : list nat :=
   find_idx (fun c => negb (c06core_model_ok c)) cases 0.
@@ -116,8 +124,14 @@ Fixpoint core_code (rate : Z) (scope : bool) (st : astate QJ) (ops : list crop) 
       end
   end.
 
+(* the recount starts with total0 losses already counted (0 <= total0 < 2^24) *)
+Definition a_start (total0 : Z) : astate QJ :=
+  let i := a_init QJ qj0 in
+  mkA (a_hi i) (a_recv i) (a_prev i) total0 (a_ts i) (a_time i) (a_jit i) (a_lsr i) (a_lsr_time i).
+
 Definition c06core_code (c : c06core_case) : nat :=
-  let '(rate, ops) := c in core_code rate true (a_init QJ qj0) ops.
+  let '(rate, total0, ops) := c in
+  if (0 <=? total0) && (total0 <=? 16777215) then core_code rate true (a_start total0) ops else 8%nat.
 
 Definition c06core_spec_failures (cases : list c06core_case) : list (Z * Z) :=
   find_codes c06core_code cases 0.
